@@ -336,7 +336,7 @@ def real_groups(tier, seed):
 def run_real(v, tier, seed, wd):
     from vlib import flow
     groups = real_groups(tier, seed)
-    n, fails, infra, samples = flow.run_oracle_groups(groups, wd, per_tu=400)
+    n, fails, infra, samples = flow.run_oracle_groups(groups, wd, per_tu=(400 if tier == "quick" else 40))
     flow.report_infra(v, infra)
     worst = {}
     for g in groups: pass
